@@ -20,6 +20,7 @@ func init() {
 			"no exit other than exhaustion, error, or ShouldCommit==false), extension nodes resolve and recurse, and every node type writes itself to the target DB (error checked) before reporting success; leaves are " +
 			"pushed on the leaves channel first. (S3) SnapshotState and setStateCheckpoint hand the same leaves channel to the storage manager and to snapshotUserAccountDataTrie, which snapshots/checkpoints the data trie " +
 			"of every leaf that decodes to an account with a non-empty root hash. A skipped child, an unpersisted node or an unvisited data trie makes the snapshot unrecoverable. " +
+			"checkpointHashesHolder.RemoveCommitted drops entries only behind the test that the entry reached is the given root (directly or through a found-flag). " +
 			"Not decided (schedules/value-level): atomicity against concurrent commits, errors swallowed by takeSnapshot's logging, queue capacity.",
 		Run: runC10,
 	})
